@@ -78,6 +78,16 @@ func (queueComp) Gen(r *rand.Rand, tier string, n int) []*wire.Case {
 		ops = append(ops, ins(45), ins(115), pop(), pop(), pop(), pop(), pop(), wire.R("isempty"))
 		mk(fmt.Sprintf("d-burst-%d", k), ops...)
 	}
+	{
+		// a queue that has served very many tasks (the insertion counter only ever grows): order and first-in first-out hold on
+		tag = 0
+		var ops []*wire.Rec
+		for j := 0; j < 65534; j++ {
+			ops = append(ops, ins(75), pop())
+		}
+		ops = append(ops, ins(45), ins(45), ins(45), pop(), pop(), pop(), ins(49), ins(48), pop(), pop(), ins(115), ins(75), ins(115), pop(), pop(), pop(), wire.R("isempty"))
+		mk("d-long-life", ops...)
+	}
 	if tier == "thorough" {
 		// exhaustive: all words over {insert p (p in 3 priorities), pop} up to length 8 with at most 7 pending
 		alpha := []int{75, 115, 500, -1}
